@@ -172,6 +172,24 @@ func installHooks(c *Ctx) {
 			}
 			return c.disk.Stat(name)
 		},
+		OpenFile: func(name string, flag int, perm os.FileMode) (*verifsim.File, error) {
+			if c.disk == nil {
+				return nil, os.ErrNotExist
+			}
+			return c.disk.OpenFile(name, flag)
+		},
+		Remove: func(name string) error {
+			if c.disk == nil {
+				return os.ErrNotExist
+			}
+			return c.disk.Remove(name)
+		},
+		Rename: func(o, n string) error {
+			if c.disk == nil {
+				return os.ErrNotExist
+			}
+			return c.disk.Rename(o, n)
+		},
 	}
 }
 
